@@ -142,6 +142,7 @@ def networks(tier, seed):
             fresh_species_state()
             net = Network([mk_reaction(*r[:2], **(r[2] if len(r) > 2 else {})) for r in reacs] or None, **kw)
             net._vf_declared_names = {n for r in reacs for n in list(r[0]) + list(r[1]) if n not in ("CR", "CRP", "PHOTON", "CRPHOT", "Photon")} | set(kw.get("required_species", []))
+            net._vf_declared_reactions = [([n for n in r[0] if n not in ("CR", "CRP", "PHOTON", "CRPHOT", "Photon")], list(r[1])) for r in reacs]
             return net
         return label, f
 
@@ -196,6 +197,7 @@ def networks(tier, seed):
             ars = [NN.AR(r, p, 1.0 + k, 0.0, 0.0, 10, 41000, k + 1, {"kida": 3, "umist": "NN", "leeds": 1, "uclchem": "MA"}[fmt]) for k, (r, p) in enumerate(specs)]
             net = NN.load([NN.ENC[fmt](a) for a in ars], fmt)
             net._vf_declared_names = {("e-" if n in ("E-", "e-", "E") else n) for r, p in specs for n in r + p}
+            net._vf_declared_reactions = [([("e-" if n in ("E-", "E") else n) for n in r], [("e-" if n in ("E-", "E") else n) for n in p]) for r, p in specs]
             return net
         return f
     for fmt_, e_ in (("uclchem", "E-"), ("kida", "e-"), ("leeds", "e-"), ("umist", "e-")):
@@ -365,6 +367,31 @@ def expected_rhs(net, yv, kv, khv, kcv, idents, ode_modifier):
                     return hit[0]
             return species.index(s)
     slots_of = _Slots()
+    declared = getattr(net, "_vf_declared_reactions", None)
+    if declared is not None and len(declared) == len(net.reactions):
+        # the network description itself (names as written), not the parsed reaction objects
+        def by_name(nm):
+            ident = indep_identity(nm)
+            hit = [i for i, x in enumerate(idents_) if x == ident and ident is not None]
+            return hit[0] if len(hit) == 1 else None
+        for r, (rn, pn) in enumerate(declared):
+            rs_, ps_ = [by_name(x) for x in rn], [by_name(x) for x in pn]
+            if None in rs_ or None in ps_:
+                declared = None
+                break
+        if declared is not None:
+            out = [Fraction(0)] * (n + 1)
+            for r, (rn, pn) in enumerate(declared):
+                if not rn and not pn:
+                    continue
+                flux = kv[r]
+                for x in rn:
+                    flux *= yv[by_name(x)]
+                for x in rn:
+                    out[by_name(x)] -= flux
+                for x in pn:
+                    out[by_name(x)] += flux
+            return out
     for r, reac in enumerate(net.reactions):
         slots = [slots_of.index(s) for s in reac.reactants]
         flux = kv[r]
@@ -721,10 +748,24 @@ def conservation(label, net, R, got, yv, env, bname):
         if key == "charge":
             return sum(s.charge for s in sp_list)
         return sum(s.element_count.get(key, 0) for s in sp_list)
+    decl_r = getattr(net, "_vf_declared_reactions", None)
+
+    def dtotal(names_, key):
+        tot = 0
+        for nm in names_:
+            ident = indep_identity(nm)
+            if ident is None:
+                return None
+            tot += ident[2] if key == "charge" else dict(ident[1]).get(key, 0)
+        return tot
     for key in elems + ["charge"]:
-        if key == "charge":
-            pass
+        if key in ("e", "E"):
+            continue          # electrons are covered by the charge balance; "e" is not a chemical element
         balanced = all(total(r.reactants, key) == total(r.products, key) for r in net.reactions)
+        if decl_r is not None:
+            db = [(dtotal(rn, key), dtotal(pn, key)) for rn, pn in decl_r]
+            if all(a is not None and b is not None for a, b in db):
+                balanced = all(a == b for a, b in db)      # what the network description says, independent of the readers
         if not balanced or (net.ode_modifier or {}):
             continue
         tot = Fraction(0)
